@@ -194,8 +194,19 @@ func (c *Ctx) Violation(sig, msg string, input interface{}) bool {
 	}
 	c.sigSeen[sig] = true
 	b, _ := json.Marshal(input)
-	c.Res.Violations = append(c.Res.Violations, &ViolationRec{Property: c.Check.ID, Sig: sig, Msg: msg, Input: b})
+	v := &ViolationRec{Property: c.Check.ID, Sig: sig, Msg: msg, Input: b}
+	c.Res.Violations = append(c.Res.Violations, v)
+	emitViolation(v)
 	return false
+}
+
+// emitViolation writes the violation to stderr at once, so that the
+// coordinator still has it if this worker later hangs and must be killed.
+func emitViolation(v *ViolationRec) {
+	cp := *v
+	cp.Trace = nil
+	b, _ := json.Marshal(&cp)
+	fmt.Fprintf(os.Stderr, "VIOLJSON %s\n", b)
 }
 
 // SigFunc derives the finding signature of a violation message.
@@ -238,8 +249,10 @@ func (c *Ctx) Explore(sc *explore.Scenario, maxD int, sig SigFunc) *explore.Stat
 			tr = append(tr[:200], append([]string{"..."}, tr[len(tr)-200:]...)...)
 		}
 		pb, _ := json.Marshal(sc.Params)
-		c.Res.Violations = append(c.Res.Violations, &ViolationRec{Property: c.Check.ID, Sig: s, Msg: v.Msg, Scenario: sc.Name,
-			Params: pb, Policy: v.Policy, Demotion: v.Demotion, Choices: v.Choices, Cost: v.Cost, Trace: tr})
+		vr := &ViolationRec{Property: c.Check.ID, Sig: s, Msg: v.Msg, Scenario: sc.Name,
+			Params: pb, Policy: v.Policy, Demotion: v.Demotion, Choices: v.Choices, Cost: v.Cost, Trace: tr}
+		c.Res.Violations = append(c.Res.Violations, vr)
+		emitViolation(vr)
 		unknown++
 		return true // stop this scenario at the first unknown violation
 	}
@@ -361,6 +374,24 @@ func WorkerMain(id, tier string, shard, n int, deadline time.Time) int {
 	return 0
 }
 
+var hangGrace = 120 * time.Second
+
+type lockedBuf struct {
+	mu sync.Mutex
+	b  strings.Builder
+}
+
+func (l *lockedBuf) Write(p []byte) (int, error) {
+	l.mu.Lock()
+	defer l.mu.Unlock()
+	return l.b.Write(p)
+}
+func (l *lockedBuf) String() string {
+	l.mu.Lock()
+	defer l.mu.Unlock()
+	return l.b.String()
+}
+
 // Evidence is the evidence file.
 type Evidence struct {
 	PropertyID  string                 `json:"property_id"`
@@ -421,11 +452,50 @@ func CheckMain(id, tier string) int {
 			defer wg.Done()
 			cmd := exec.Command(self, "worker", id, tier, strconv.Itoa(i), strconv.Itoa(n), strconv.FormatInt(deadline.UnixNano(), 10))
 			cmd.Env = append(os.Environ(), "GOMAXPROCS=2")
-			var stderr strings.Builder
+			var stderr, stdout lockedBuf
 			cmd.Stderr = &stderr
-			out, err := cmd.Output()
+			cmd.Stdout = &stdout
+			if err := cmd.Start(); err != nil {
+				errs[i] = fmt.Sprintf("shard %d: %v", i, err)
+				return
+			}
+			waitCh := make(chan error, 1)
+			go func() { waitCh <- cmd.Wait() }()
+			var err error
+			hung := false
+			select {
+			case err = <-waitCh:
+			case <-time.After(time.Until(deadline) + hangGrace):
+				// the worker is stuck in native code (e.g. a blocking open): kill it and keep what it reported
+				hung = true
+				cmd.Process.Kill()
+				err = <-waitCh
+			}
+			out := []byte(stdout.String())
 			if err != nil {
-				errs[i] = fmt.Sprintf("shard %d: %v: %s", i, err, tail(stderr.String(), 2000))
+				// harvest the violations reported before the crash / hang
+				var vs []*ViolationRec
+				for _, l := range strings.Split(stderr.String(), "\n") {
+					if strings.HasPrefix(l, "VIOLJSON ") {
+						v := &ViolationRec{}
+						if json.Unmarshal([]byte(l[9:]), v) == nil {
+							vs = append(vs, v)
+						}
+					}
+				}
+				if len(vs) > 0 {
+					r := &wres{}
+					r.Violations = vs
+					r.Incomplete = true
+					r.Notes = []string{fmt.Sprintf("shard %d did not finish (hung=%v, %v) after reporting %d violation(s)", i, hung, err, len(vs))}
+					results[i] = r
+					return
+				}
+				if hung {
+					errs[i] = fmt.Sprintf("shard %d hung past its deadline without reporting a violation: %s", i, tail(stderr.String(), 1500))
+				} else {
+					errs[i] = fmt.Sprintf("shard %d: %v: %s", i, err, tail(stderr.String(), 2000))
+				}
 				return
 			}
 			// the JSON is the last line
@@ -457,6 +527,9 @@ func CheckMain(id, tier string) int {
 	var scenOrder []string
 	extra := map[string]interface{}{}
 	for _, r := range results {
+		if r == nil {
+			continue
+		}
 		if r.HarnessErr != "" {
 			fmt.Fprintln(os.Stderr, "HARNESS ERROR:", r.HarnessErr)
 			return 2
